@@ -27,9 +27,10 @@ var patterns = [][]int{{1}, {7}, {512}, {4096}, {65536}, {512, 1, 3}, {2, 4095},
 var segKinds = []string{"one", "one", "random", "random", "small", "byte"}
 
 type gen struct {
-	r   *hk.Run
-	rng *hk.Rand
-	xs  []*exch
+	r     *hk.Run
+	rng   *hk.Rand
+	xs    []*exch
+	files []*fileScenario
 }
 
 func (g *gen) h1(a *aresp, o *h1opts, method, mode, segK string, decode bool) *exch {
@@ -78,6 +79,27 @@ func (g *gen) muxAresp(bodyLen, nFields int) *aresp {
 		a.setBody(g.rng, 0) // a 204 announces no length other than 0 (RFC 9110 8.6)
 	}
 	return a
+}
+
+// upgradeCell: 101 Switching Protocols; whatever follows the head is handed to the caller as Body
+func (g *gen) upgradeCell(a *aresp, mode, segK string) *exch {
+	o := &h1opts{Framing: wire.FrClose, FrName: "upgrade"}
+	x := &exch{Proto: "h1", A: a, H1: o, Method: "GET", Mode: mode, SegK: segK, Upgrade: true, Pat: hk.Pick(g.rng, patterns)}
+	var w wbuilder
+	w.WriteString("HTTP/1.1 101 Switching Protocols\r\n")
+	for _, f := range a.Fields {
+		renderField(g.rng, &w, f, false)
+	}
+	w.WriteString("\r\n")
+	x.hdrLen = w.Len()
+	w.WriteBody(a.Body, 0, len(a.Body))
+	x.wire, x.pieces = w.buf.Bytes(), w.pieces
+	if segK == "byte" && len(x.wire) > 3000 {
+		x.SegK = "small"
+	}
+	x.segs = genSegs(g.rng, len(x.wire), x.SegK)
+	g.xs = append(g.xs, x)
+	return x
 }
 
 func (g *gen) pickFraming(a *aresp) *h1opts {
@@ -221,6 +243,60 @@ func (g *gen) build() {
 			g.h3(a, "GET", hk.Pick(rng, modes), rng.Bool())
 		}
 	}
+	// J. round 2: 101 upgrade, redirect chains (final response = the last hop's), multi-valued Set-Cookie,
+	//    HTTP/2 responses written in one burst to a slow consumer (trailers processed before the body is read)
+	for i, n := 0, r.Scale(40, 400); i < n; i++ {
+		a := genAresp(rng, hk.Pick(rng, []int{0, 1, 17, 300, 5000}), rng.Intn(5), false)
+		a.Code, a.Reason, a.Interim = 101, "Switching Protocols", nil
+		a.Fields = append(a.Fields, field{hk.Pick(rng, []string{"Upgrade", "upgrade"}), hk.Pick(rng, []string{"c02proto", "websocket", "a/1, b/2"})},
+			field{hk.Pick(rng, []string{"Connection", "connection"}), hk.Pick(rng, []string{"Upgrade", "upgrade", "keep-alive, Upgrade"})})
+		j := rng.Intn(len(a.Fields))
+		a.Fields[j], a.Fields[len(a.Fields)-1] = a.Fields[len(a.Fields)-1], a.Fields[j]
+		x := g.upgradeCell(a, hk.Pick(rng, []string{"stream", "tobytes", "output", "auto"}), hk.Pick(rng, segKinds))
+		_ = x
+	}
+	for i, n := 0, r.Scale(60, 600); i < n; i++ {
+		a := genAresp(rng, hk.Pick(rng, smallLens), rng.Intn(6), false)
+		for a.Code >= 300 && a.Code < 400 {
+			a = genAresp(rng, hk.Pick(rng, smallLens), rng.Intn(6), false)
+		}
+		x := g.h1(a, g.pickFraming(a), "GET", hk.Pick(rng, modes), hk.Pick(rng, segKinds), false)
+		for k, hops := 0, rng.Range(1, 3); k < hops; k++ {
+			x.Redirect = append(x.Redirect, hk.Pick(rng, []int{301, 302, 303, 307, 308}))
+		}
+	}
+	for i, n := 0, r.Scale(45, 450); i < n; i++ {
+		a := g.muxAresp(hk.Pick(rng, smallLens), rng.Intn(3))
+		for k, nc := 0, rng.Range(2, 6); k < nc; k++ {
+			a.Fields = append(a.Fields, field{hk.Pick(rng, []string{"Set-Cookie", "set-cookie", "SET-COOKIE", "Set-cookie"}),
+				fmt.Sprintf("c%d=%x; Path=/%s", k, rng.Intn(1<<20), hk.Pick(rng, []string{"", "; HttpOnly", "; Max-Age=10", "; Domain=c02.test"}))})
+		}
+		switch i % 3 {
+		case 0:
+			g.h1(a, g.pickFraming(a), "GET", hk.Pick(rng, modes), hk.Pick(rng, segKinds), false)
+		case 1:
+			g.h2(a, "GET", hk.Pick(rng, modes), hk.Pick(rng, segKinds), rng.Bool())
+		default:
+			g.h3(a, "GET", hk.Pick(rng, modes), rng.Bool())
+		}
+	}
+	for i, n := 0, r.Scale(48, 480); i < n; i++ {
+		a := g.muxAresp(hk.Pick(rng, []int{0, 1, 17, 100, 600, 4096}), rng.Intn(4))
+		if bodyAllowed(a.Code) {
+			a.Trailers = genTrailers(rng, false)
+			if len(a.Trailers) == 0 {
+				a.Trailers = []field{{"X-Checksum", "sum"}}
+			}
+		}
+		x := g.h2(a, "GET", hk.Pick(rng, modes), "batch", rng.Bool())
+		if i%2 == 0 {
+			x.DelayMs = 30
+		}
+	}
+	// K. output files as state across exchanges
+	for i, n := 0, r.Scale(24, 300); i < n; i++ {
+		g.files = append(g.files, genFileScenario(rng, i, filepath.Join(r.OutDir, "dl")))
+	}
 	// I. Response API cells (round 2), on all three protocols
 	for i, n := 0, r.Scale(240, 3000); i < n; i++ {
 		a := g.muxAresp(hk.Pick(rng, []int{0, 1, 17, 100, 255, 600}), rng.Intn(4))
@@ -313,6 +389,12 @@ func runC02(r *hk.Run) {
 		}(w)
 	}
 	wg.Wait()
+	for _, sc := range g.files {
+		sc.run(srv)
+		sc.oracle(r)
+		r.Count("file-scenario")
+		r.Add(hk.Case{Coq: sc.coq(), Desc: map[string]interface{}{"kind": "file", "scenario": sc}}, sc.key(), true)
+	}
 	os.RemoveAll(outDir)
 
 	crossOracle(r, g.xs)
